@@ -161,7 +161,10 @@ IExtend(id, k) ==
   /\ UNCHANGED data /\ Damaged(Step("iextend", id, "-", k, "-"), {id}, {})
 IFlip(id, fld) ==
   /\ idx[id].wf
-  /\ idx' = [idx EXCEPT ![id] = JunkIdx(@.len)]
+  \* damage confined to the tail of the entry (time stamp, newline) is kept apart from damage further up: everything the
+  \* entry says about the output is still intact there, so histories that go on from it (a store of the same content,
+  \* say) are explored in their own right and not through a representative with a damaged head
+  /\ idx' = [idx EXCEPT ![id] = [JunkIdx(@.len) EXCEPT !.eid = IF fld \in {"time", "nl"} THEN "-tail" ELSE "-"]]
   /\ UNCHANGED data /\ Damaged(Step("iflip", id, "-", 0, fld), {id}, {})
 IDelete(id) ==
   /\ idx[id].ex
